@@ -4,6 +4,12 @@ import json, os, subprocess
 HERE = os.path.dirname(os.path.abspath(__file__))
 
 CHECKS = {
+ "C01": dict(cat="exploration", tech="runtime monitoring: generated programs x all driver outcome vectors, stdout/exit compared with an executable reference interpreter",
+   text="Seeded random programs (depth<=5, <=80 statements) and a systematic skeleton family (every construct nested in every other with break/continue/return, full from-loop matrix) are executed by the real binary once per driver outcome vector (all vectors up to the decision bound); the exact stdout line sequence, success/failure and failure kind are compared with the reference interpreter mv/cf.py. Held = every comparable execution agreed.",
+   note="Trusted: the reference semantics in mv/cf.py (DESIGN §3 C01); bounded: nesting depth 5, 80 statements, 8 (quick) / 11 (thorough) decisions per run, loop trip counts <= 6.", ref="§3 C01"),
+ "C09": dict(cat="exploration", tech="runtime monitoring: per-instruction trace hook checked offline against a shadow scope stack, the static nesting of the dumped bytecode, jump offsets and operand-shape preconditions",
+   text="Every execution of the skeleton/random workloads (each branch outcome made taken by enumerating driver vectors) and of the example/test corpus runs with H-TRACE + H-DUMP; tracecheck.py asserts at every instruction: successor is ip+1 or ip+offset inside the function, frame depth == entry + open scopes == lexical nesting of that index, loop heads revisited at equal depth, callee returns restore the caller's depth, operand-stack shape, empty call stack at normal end; all loaded functions (executed or not) are checked statically for balanced scopes and in-range jumps.",
+   note="Trusted: hook events are faithful; structured-code assumption of the static scan (violations of it are reported, not assumed). Paths of corpus programs are covered only as executed.", ref="§3 C09"),
  "C20": dict(cat="exploration", tech="runtime monitoring: fs snapshot diff + strace syscall monitor vs. deletion model",
    text="Every generated directory tree (exhaustive single entries and pairs over 14 special names x 8 entry kinds x 4 DIR spellings; seeded larger trees) is cleaned by the real binary under strace; before/after snapshots of the whole case root and every mutating syscall are compared with the statement's model. Held = no deviation on the trees explored.",
    note="Trusted: strace -f reports all syscalls; snapshot covers type/content/mode/link target. `.mmm` and symlinks named *.mmm are left open by the statement and accepted either way.", ref="§3 C20"),
